@@ -198,10 +198,22 @@ def strat_value():
     return st.fixed_dictionaries({'p': gen.progs(CFG)})
 
 
+def enum_small(tier):
+    """every value of the small scopes; eval_allpairs then takes every (start, stop)"""
+    for names, depth, text in gen.small_scopes(tier):
+        for i, p in enumerate(gen.small_values(names, depth, text)):
+            yield {'p': p}
+            if i % 7 == 0:
+                yield {'p': dict(p, cls='s')}
+
+
 SUBS = [
     Sub('slice', eval_slice, strategy=strat_slice, quick=500, thorough=8000,
         rule='one (start, stop), one integer index, clip, step per generated value'),
     Sub('iterate', eval_iter, strategy=strat_value, quick=200, thorough=3000),
+    Sub('small_exhaustive', eval_allpairs, enumerate=enum_small,
+        rule='every value reachable from a plain text by <= 2 apply/remove steps over {red, blue, bold} on 3 characters and by <= 3 steps over {red, blue} on 2 characters (thorough: 3) - all ranges, topmost both ways, x every (start, stop) in {None} U [-len-2, len+2]',
+        exhaustive_note='all values of the small scopes x all slice bounds'),
     Sub('allpairs', eval_allpairs, strategy=strat_value, quick=60, thorough=1500,
         rule='every (start, stop) in {None} U [-len-2, len+2] for each generated value (exhaustive in the bound dimension)'),
 ]
